@@ -343,6 +343,18 @@ structure Codec.Lawful (cd : Codec) (P : EncParams) : Prop where
   unb64_b64 : ∀ x, cd.unb64 (cd.b64 x) = some x
   b64_line : ∀ x, x ≠ [] → cd.b64 x ≠ [] ∧ (10 : UInt8) ∉ cd.b64 x
 
+/-- The codec laws for one manifest (the concrete JSON/base64 codec satisfies them for valid manifests
+    whose key name is in the modelled subset: `KitProofs/Lemmas/EncCodecLaws.lean`). -/
+structure Codec.LawfulFor (cd : Codec) (m : Manifest) : Prop where
+  parse_render : cd.parse (cd.render m) = some m
+  render_line : cd.render m ≠ [] ∧ (10 : UInt8) ∉ cd.render m
+  unb64_b64 : ∀ x, cd.unb64 (cd.b64 x) = some x
+  b64_line : ∀ x, x ≠ [] → cd.b64 x ≠ [] ∧ (10 : UInt8) ∉ cd.b64 x
+
+theorem Codec.Lawful.for {cd : Codec} {P : EncParams} (l : cd.Lawful P) (m : Manifest) (hm : m.valid P = true) :
+    cd.LawfulFor m :=
+  ⟨l.parse_render m hm, l.render_line m, l.unb64_b64, l.b64_line⟩
+
 /-! ## nonce, keys, header -/
 
 def be32 (i : Nat) : Bytes :=
